@@ -656,7 +656,20 @@ impl Property for C15 {
         match rng.weighted(&[30, 20, 8, 30, 12]) {
             0 => {
                 let proportional = rng.chance(0.35);
-                let (label, mesh) = gen_sampling_mesh(rng, if proportional { 40 } else { 200 });
+                let (mut label, mut mesh) = gen_sampling_mesh(rng, if proportional { 40 } else { 200 });
+                // Uniform sampling never draws a face of zero area, so such a face (not the last
+                // one) may sit in the list without harm; only on fault-free runs, because a word
+                // landing exactly on its (doubled) breakpoint is a case the contract does not cover
+                let zero_area = mesh.f.len() >= 2 && rng.chance(0.15);
+                if zero_area {
+                    let f = mesh.f[rng.below(mesh.f.len())];
+                    let (a, b) = (mesh.v[f[0] as usize], mesh.v[f[1] as usize]);
+                    mesh.v.push(scale(add(a, b), 0.5));
+                    let m = (mesh.v.len() - 1) as u32;
+                    let at = rng.below(mesh.f.len() - 1);
+                    mesh.f.insert(at, [f[0], m, f[1]]);
+                    label.push_str("+zero-area-face");
+                }
                 let cap = 2_000_000 / mesh.f.len().max(1);
                 let n = if proportional {
                     (if tier == Tier::Quick { 20_000 } else { 50_000 }).min(cap)
@@ -666,7 +679,7 @@ impl Property for C15 {
                         (if rng.chance(0.03) { 0 } else { 1 + rng.below(nmax) }).min(cap)
                     }
                 };
-                let fault_rate = if proportional { 0.0 } else { *rng.pick(&[0.0, 0.01, 0.1, 1.0]) };
+                let fault_rate = if proportional || zero_area { 0.0 } else { *rng.pick(&[0.0, 0.01, 0.1, 1.0]) };
                 Sc::Uniform { label, mesh, n, fault_rate }
             }
             1 => {
@@ -1179,6 +1192,31 @@ impl Property for C15 {
             }
         }
         out
+    }
+
+    fn valid(&self, sc: &Sc) -> bool {
+        let proper = |m: &M, i: usize| {
+            let t = m.tri(i);
+            let (e1, e2) = (sub(t[1], t[0]), sub(t[2], t[0]));
+            m.area(i) > 1e-13 && norm(cross(e1, e2)) > 1e-4 * norm(e1) * norm(e2)
+        };
+        match sc {
+            Sc::Uniform { mesh, fault_rate, .. } => {
+                // zero-area faces only on fault-free runs and never last; at least one proper face
+                let n = mesh.f.len();
+                n >= 1
+                    && proper(mesh, n - 1)
+                    && (0..n).all(|i| proper(mesh, i) || (*fault_rate == 0.0 && mesh.area(i) < 1e-13))
+            }
+            Sc::PoissonMesh { mesh, radius, .. } => !mesh.f.is_empty() && (0..mesh.f.len()).all(|i| proper(mesh, i)) && *radius > 0.0,
+            Sc::Dense { mesh, spacing, .. } => !mesh.f.is_empty() && (0..mesh.f.len()).all(|i| proper(mesh, i)) && *spacing > 0.0,
+            Sc::Points { pts, order, subset, queries, k, .. } => {
+                !pts.is_empty() && !order.is_empty() && !subset.is_empty() && !queries.is_empty() && *k >= 1
+                    && order.iter().all(|&i| i < pts.len())
+                    && subset.iter().all(|&i| i < pts.len())
+            }
+            Sc::Hull { pts, pivot_mode, .. } => pts.len() >= 4 && pivot_mode.1 < pts.len() && pivot_mode.2 < pts.len(),
+        }
     }
 
     fn fingerprints(&self, sc: &Sc, _v: &Violation) -> Vec<String> {
